@@ -38,7 +38,8 @@ ASSUMPTIONS = [
 
 GFF_A = ["c1\ts\tgene\t1\t100\t.\t+\t.\tID=g1", "c1\ts\tmRNA\t1\t100\t.\t+\t.\tID=m1;Parent=g1",
          "c1\ts\texon\t1\t50\t.\t+\t.\tID=e1;Parent=m1", "c1\ts\texon\t60\t100\t.\t+\t.\tID=e2;Parent=m1"]
-GFF_B = ["c2\ts\tgene\t5\t90\t.\t-\t.\tID=h1", "c2\ts\tmRNA\t5\t90\t.\t-\t.\tID=k1;Parent=h1",
+# (the gene's id holds a blank: it travels through the intermediate file as a grandparent)
+GFF_B = ["c2\ts\tgene\t5\t90\t.\t-\t.\tID=h 1", "c2\ts\tmRNA\t5\t90\t.\t-\t.\tID=k1;Parent=h 1",
          "c2\ts\tCDS\t5\t50\t.\t-\t0\tID=d1;Parent=k1"]
 GTF_A = ['c1\ts\texon\t1\t50\t.\t+\t.\tgene_id "G1"; transcript_id "T1";', 'c1\ts\texon\t60\t100\t.\t+\t.\tgene_id "G1"; transcript_id "T1";',
          'c1\ts\texon\t10\t20\t.\t+\t.\tgene_id "G1"; transcript_id "T2";']
